@@ -215,6 +215,175 @@ def run_wrapper_exception_probe():
     return bad
 
 
+# ----------------------------------------------------------------------------- C05: numbering across non-rewindable regions
+def nonrewindable_region_probe():
+    """events saved while rewinding is switched OFF are never re-taken; when rewinding is switched back ON the numbering so
+    far is committed, so a later pause + resume (rewind) must not hand their seq_nums out again.  Plans: k points inside a
+    rewindable(False) .. rewindable(True) region, then j cacheable messages, a pause (resumed from the main thread), more
+    points; also the order ON->OFF->pause inside the region (aborts: not resumable -- not judged here)."""
+    from bluesky.utils import Msg, RunEngineInterrupted
+
+    class Det:
+        parent = None
+        name = "det"
+
+        def __init__(self):
+            self.n = 0
+
+        def read(self):
+            self.n += 1
+            return {"det": {"value": self.n, "timestamp": 0.0}}
+
+        def describe(self):
+            return {"det": {"source": "sim", "dtype": "number", "shape": []}}
+
+        def read_configuration(self):
+            return {}
+
+        def describe_configuration(self):
+            return {}
+
+        def trigger(self):
+            st = _Status()
+            st.finish(True)
+            return st
+
+    bad = []
+    for k in (1, 2):
+        for j in (1, 2):
+            for after in (1, 2):
+                det = Det()
+
+                def point():
+                    yield Msg("create", name="primary")
+                    yield Msg("read", det)
+                    yield Msg("save")
+
+                def plan(k=k, j=j, after=after):
+                    yield Msg("open_run")
+                    yield Msg("checkpoint")
+                    yield Msg("rewindable", None, False)
+                    for _ in range(k):
+                        yield from point()
+                    yield Msg("rewindable", None, True)
+                    for _ in range(j):
+                        yield Msg("null")
+                    yield Msg("pause")
+                    for _ in range(after):
+                        yield from point()
+                    yield Msg("close_run")
+
+                RE, docs = _engine()
+                out = _run(RE, plan())
+                rounds = 0
+                while str(RE.state) == "paused" and rounds < 5:
+                    rounds += 1
+                    out = _run_call_catch(RE.resume)
+                evs = [(d["seq_num"], d["data"]["det"]) for n, d in docs if n == "event"]
+                stops = [d for n, d in docs if n == "stop"]
+                case = {"probe": "nonrewindable-region", "k": k, "j": j, "after": after}
+                seqs = [s for s, _ in evs]
+                vals = [v for _, v in evs]
+                if str(RE.state) != "idle" or len(stops) != 1:
+                    bad.append(("nonrewindable-region:call-did-not-finish", f"k={k}, j={j}, after={after}: state {RE.state!s}, {len(stops)} RunStop, last outcome {out[0]}", case))
+                    continue
+                if len(set(vals)) == len(vals) and seqs != list(range(1, len(seqs) + 1)):
+                    bad.append(("nonrewindable-region:seq_num-reused-for-distinct-events", f"{k} point(s) saved while rewinding was off, rewindable(True), {j} cacheable message(s), pause + resume, {after} more point(s): {len(vals)} distinct readings {vals} carry seq_nums {seqs}", case))
+                ne = stops[0].get("num_events", {}).get("primary")
+                if len(set(vals)) == len(vals) and ne != len(evs):
+                    bad.append(("nonrewindable-region:num_events-differs-from-events-emitted", f"{len(evs)} distinct events were emitted (seq_nums {seqs}) but RunStop.num_events['primary'] = {ne}", case))
+    return bad
+
+
+def classic_flyer_probe():
+    """an old-style flyer (stream known only through describe_collect(), events yielded by collect()): collected events are
+    never re-taken, so the numbers they used are committed -- a pause + resume right after ANY collect (also the first one,
+    which creates the stream) must not hand them out again"""
+    import time
+
+    from bluesky.utils import Msg
+
+    class Flyer:
+        name = "flyer"
+        parent = None
+
+        def __init__(self, per_collect):
+            self.n = 0
+            self.per = per_collect
+
+        def kickoff(self):
+            st = _Status()
+            st.finish(True)
+            return st
+
+        complete = kickoff
+
+        def describe_collect(self):
+            return {"flystream": {"x": {"source": "sim", "dtype": "number", "shape": []}}}
+
+        def collect(self):
+            for _ in range(self.per):
+                self.n += 1
+                now = time.time()
+                yield {"data": {"x": self.n}, "timestamps": {"x": now}, "time": now}
+
+    bad = []
+    for per in (1, 2):
+        for pause_after in (1, 2):
+            for ncollect in (2, 3):
+                fly = Flyer(per)
+
+                def plan(fly=fly, pause_after=pause_after, ncollect=ncollect):
+                    yield Msg("open_run")
+                    yield Msg("checkpoint")
+                    yield Msg("kickoff", fly, group="g")
+                    yield Msg("wait", None, group="g")
+                    yield Msg("complete", fly, group="h")
+                    yield Msg("wait", None, group="h")
+                    for i in range(1, ncollect + 1):
+                        yield Msg("collect", fly)
+                        if i == pause_after:
+                            yield Msg("pause")
+                    yield Msg("close_run")
+
+                RE, docs = _engine()
+                out = _run(RE, plan())
+                rounds = 0
+                while str(RE.state) == "paused" and rounds < 5:
+                    rounds += 1
+                    out = _run_call_catch(RE.resume)
+                desc = {d["uid"]: d["name"] for n, d in docs if n == "descriptor"}
+                seqs, vals = [], []
+                for n, d in docs:
+                    if n == "event" and desc.get(d["descriptor"]) == "flystream":
+                        seqs.append(d["seq_num"])
+                        vals.append(d["data"]["x"])
+                    elif n == "event_page" and desc.get(d["descriptor"]) == "flystream":
+                        seqs += list(d["seq_num"])
+                        vals += list(d["data"]["x"])
+                stops = [d for n, d in docs if n == "stop"]
+                case = {"probe": "classic-flyer", "per_collect": per, "pause_after": pause_after, "ncollect": ncollect}
+                if str(RE.state) != "idle" or len(stops) != 1:
+                    bad.append(("classic-flyer:call-did-not-finish", f"{case}: state {RE.state!s}, {len(stops)} RunStop, last outcome {out[0]} {out[1]!r}", case))
+                    continue
+                if len(set(vals)) == len(vals) and seqs != list(range(1, len(seqs) + 1)):
+                    bad.append(("classic-flyer:seq_num-reused-for-distinct-events", f"{ncollect} collects of {per} event(s), pause + resume after collect #{pause_after}: distinct values {vals} carry seq_nums {seqs}", case))
+                ne = stops[0].get("num_events", {}).get("flystream")
+                if len(set(vals)) == len(vals) and ne != len(vals):
+                    bad.append(("classic-flyer:num_events-differs-from-events-emitted", f"{len(vals)} distinct events (seq_nums {seqs}) but RunStop.num_events['flystream'] = {ne}", case))
+    return bad
+
+
+def _run_call_catch(f):
+    buf = io.StringIO()
+    with contextlib.redirect_stdout(buf), contextlib.redirect_stderr(buf):
+        try:
+            f()
+            return ("return", None)
+        except BaseException as e:  # noqa
+            return ("raise", e)
+
+
 # ----------------------------------------------------------------------------- C24: relative moves on devices outside the Lean model
 def relative_moves_probe():
     """relative plans on (a) a real axis that is a CHILD of an ophyd PseudoPositioner and (b) a Locatable device whose
@@ -360,7 +529,7 @@ def _run_call(f):
         return f()
 
 
-PROBES = {"relative-moves": relative_moves_probe, "stale-deferred-pause": stale_deferred_pause_probe, "reused-message": reused_message_probe, "locate": locate_probe, "run-wrapper-exception": run_wrapper_exception_probe}
+PROBES = {"classic-flyer": classic_flyer_probe, "nonrewindable-region": nonrewindable_region_probe, "relative-moves": relative_moves_probe, "stale-deferred-pause": stale_deferred_pause_probe, "reused-message": reused_message_probe, "locate": locate_probe, "run-wrapper-exception": run_wrapper_exception_probe}
 
 
 def add_to(res, names):
